@@ -619,8 +619,21 @@ pub fn sessions(sink: &mut Sink, seed: u64, thorough: bool, alphabet: &str, beha
             let mut outs = Vec::new();
             for (calls, k) in &plan2 {
                 for c in calls { c.apply(&mut b); sofar.push(c.clone()); }
-                let s = b.to_str(&qrs2[*k]);
-                let fresh = svg_builder(&sofar).to_str(&qrs2[*k]);
+                // the rendering is obtained through a different entry point from one step to the next: to_str; to_file (read back);
+                // to_str after a to_file that RETURNED an error; to_str after another renderer used the same code.  The fresh
+                // builder goes through the same entry point, so a defect of the entry point itself (C19's business) cancels out.
+                let qr = &qrs2[*k];
+                let via = |bb: &SvgBuilder, tag: &str| -> String {
+                    match (pi + outs.len()) % 4 {
+                        0 => bb.to_str(qr),
+                        1 => { let p = scratch_file(&format!("session-{tag}.svg")); let r = bb.to_file(qr, &p); let t = std::fs::read_to_string(&p).unwrap_or_default(); let _ = std::fs::remove_file(&p);
+                               match r { Ok(()) => t, Err(e) => format!("to_file failed: {e:?}") } }
+                        2 => { let _ = bb.to_file(qr, "/nonexistent-directory-fqv/x.svg"); bb.to_str(qr) }
+                        _ => { let mut ib = ImageBuilder::default(); ib.fit_width(64); let _ = ib.to_pixmap(qr); bb.to_str(qr) }
+                    }
+                };
+                let s = via(&b, "live");
+                let fresh = via(&svg_builder(&sofar), "fresh");
                 outs.push((sofar.clone(), *k, s == fresh, s));
             }
             outs
@@ -649,9 +662,19 @@ pub fn sessions(sink: &mut Sink, seed: u64, thorough: bool, alphabet: &str, beha
             let mut same_all = Vec::new();
             for (calls, k) in &plan {
                 for c in calls { match c { Call::FitWidth(w) => { b.fit_width(*w); } Call::FitHeight(h) => { b.fit_height(*h); } other => other.apply(&mut b) } sofar.push(c.clone()); }
-                let pm = b.to_pixmap(&qrs2[*k]);
-                let fresh = image_builder(&sofar).to_pixmap(&qrs2[*k]);
-                same_all.push((sofar.len(), *k, pm.data() == fresh.data() && pm.width() == fresh.width()));
+                let qr = &qrs2[*k];
+                let via = |bb: &ImageBuilder, tag: &str| -> Vec<u8> {
+                    match (pi + same_all.len()) % 4 {
+                        0 => { let pm = bb.to_pixmap(qr); let mut v = pm.width().to_le_bytes().to_vec(); v.extend_from_slice(pm.data()); v }
+                        1 => bb.to_bytes(qr).unwrap_or_else(|e| format!("to_bytes failed: {e:?}").into_bytes()),
+                        2 => { let p = scratch_file(&format!("rsession-{tag}.png")); let r = bb.to_file(qr, &p); let t = std::fs::read(&p).unwrap_or_default(); let _ = std::fs::remove_file(&p);
+                               match r { Ok(()) => t, Err(e) => format!("to_file failed: {e:?}").into_bytes() } }
+                        _ => { let _ = bb.to_file(qr, "/nonexistent-directory-fqv/x.png"); let _ = SvgBuilder::default().to_str(qr); let pm = bb.to_pixmap(qr); let mut v = pm.width().to_le_bytes().to_vec(); v.extend_from_slice(pm.data()); v }
+                    }
+                };
+                let live = via(&b, "live");
+                let fresh = via(&image_builder(&sofar), "fresh");
+                same_all.push((sofar.len(), *k, live == fresh));
             }
             same_all
         });
@@ -661,6 +684,11 @@ pub fn sessions(sink: &mut Sink, seed: u64, thorough: bool, alphabet: &str, beha
             Err(kd) => sink.emit(&json!({"ev": "RasterSession", "id": id, "tag": "rsession", "kind": kd, "renders": []})),
         }
     }
+}
+
+fn scratch_file(name: &str) -> String {
+    let base = std::env::var("FQV_SCRATCH").map(std::path::PathBuf::from).unwrap_or_else(|_| std::env::temp_dir());
+    base.join(format!("fqv-{}-{name}", std::process::id())).to_string_lossy().to_string()
 }
 
 // ------------------------------------------------------------------ custom shape callbacks (C15: "custom shape callbacks ... see a correct map")
